@@ -24,7 +24,7 @@ pub struct FieldSpec {
 #[derive(Clone, PartialEq, Eq, Hash, Debug, Serialize, Deserialize)]
 pub struct BodySpec {
     pub flavour: Flavour,
-    /// 0 = "b", 1 = the 70 character boundary
+    /// index into `boundary_str`
     pub boundary: u8,
     pub fields: Vec<FieldSpec>,
     /// 0 = none, 1 = preamble with look-alike lines
@@ -35,10 +35,17 @@ pub struct BodySpec {
 
 pub const B70: &str = "0123456789abcdefghijklmnopqrstuvwxyzABCDEFGHIJKLMNOPQRSTUVWXYZ01234567";
 
+/// Boundary set: 0 = "b", 1 = 70 characters, 2..4 = boundaries that themselves begin / end in
+/// dashes (legal: RFC 2046 bchars include '-'), so that a delimiter line may not be classified by
+/// its tail or head alone.
+pub const N_BOUNDARIES: u8 = 5;
 pub fn boundary_str(id: u8) -> &'static str {
     match id {
         0 => "b",
-        _ => B70,
+        1 => B70,
+        2 => "xyz--",
+        3 => "b-",
+        _ => "--b",
     }
 }
 
@@ -87,13 +94,16 @@ pub fn contents(boundary: &str) -> Vec<Content> {
         p("midline-dashes-boundary", cat(&[b"x--", b])),
         j("delimiter-plus-junk", cat(&[b"q\r\n--", b, b"x"])),
         j("delimiter-plus-junk-then-part-lookalike", cat(&[b"q\r\n--", b, b"x\r\nz: 1\r\n\r\nw"])),
+        // a line that starts like a delimiter and ends like a close delimiter
+        j("delimiter-plus-junk-plus-dashes", cat(&[b"q\r\n--", b, b"Q--"])),
+        j("delimiter-plus-junk-plus-dashes-CRLF-text", cat(&[b"q\r\n--", b, b"Q--\r\nw"])),
         // id N_CONTENTS: long content, used only by the buffer-limit sets
         p("long-150-bytes", b"0123456789\r\n--".repeat(10)),
     ]
 }
 
 /// size of the general content alphabet (id N_CONTENTS itself is the long content of the limit sets)
-pub const N_CONTENTS: usize = 17;
+pub const N_CONTENTS: usize = 19;
 
 #[derive(Clone, Copy, PartialEq, Eq, Hash, Debug, Serialize, Deserialize)]
 pub enum RegionKind {
